@@ -122,18 +122,19 @@ def transitions(ctx, f, lm, cfg, P):
             w = D.Walker(f, b, cls, unroll=2)
             paths = w.walk(0, lambda bb, env: None)
 
-            def outcome(p, asg):
+            # one winner: the function answers true exactly on the paths on which it stored the new state (the store itself is dominated
+            # by the `== previous state` test under the same guard, checked above; further conjuncts of that test - the retry deadline in
+            # from_open_to_half_open - only add `false` answers without a store)
+            rets = [p for p in paths if p["outcome"][0] == "return" and not any(l == ("const", False) for l in p["lits"])]
+            mism = []
+            for p in rets:
                 v = p["env"].get("_0")
-                return "?" if v is None else str(D.ev(v, asg)).lower()
-
-            def expected(asg, x=x):
-                r = D.rel_of(asg, "state", x)
-                if r is None:
-                    return None
-                return "true" if r == "=" else "false"
-            n, ncon, mism = run_table(ctx, P + ".transitions/returns", b.path, cfg, [p for p in paths if p["outcome"][0] == "return"], outcome, expected)
-            ctx.instance(P + ".transitions/returns", site, {"rows": n, "constrained": ncon, "mismatches": mism[:2]}, "returns true iff the state was %s" % x, not mism and ncon > 0, cfg)
-            if mism or not ncon:
+                stored = st["bb"] in p["blocks"]
+                if v not in (("const", True), ("const", False)) or (v == ("const", True)) != stored:
+                    mism.append({"returns": v, "stored": stored})
+            n_true = sum(1 for p in rets if p["env"].get("_0") == ("const", True))
+            ctx.instance(P + ".transitions/returns", site, {"return_paths": len(rets), "answering_true": n_true, "mismatches": mism[:2]}, "returns true iff it stored %s (having seen %s under the guard)" % (y, x), not mism and n_true >= 1, cfg)
+            if mism or n_true < 1:
                 ctx.violation(P + ".transitions", "%s.transitions|returns|%s->%s" % (P, x, y), "%s does not return true exactly when it performed the transition" % b.path, b.loc(), config=cfg)
             if y == "Open":
                 ups = [bb for bb, t in b.calls() if callee_is(t, "BreakerBase::update_next_retry_timestamp")]
@@ -271,22 +272,28 @@ def rollback(ctx, f, lm, cfg):
     w = D.Walker(f, b, cls, unroll=2)
     paths = w.walk(0, lambda bb, env: None)
 
-    def outcome(p, asg):
-        return "hook=%d" % sum(1 for x in p["blocks"] if x in regs)
-
-    def expected(asg):
-        # only on the transition edge (state == Open)
-        st = [k for k in asg["pairs"] if "state" in k]
-        if not st or asg["pairs"][st[0]] != "=":
-            return "hook=0" if st else None
-        e = asg["disc"].get("entry")
-        if e is None:
-            return None
-        return "hook=1" if e == 1 else ("hook=0" if e == 0 else None)
-    n, ncon, mism = run_table(ctx, "C03.rollback/registers", b.path, cfg, [p for p in paths if p["outcome"][0] == "return"], outcome, expected)
-    ctx.instance("C03.rollback/registers", b.path, {"rows": n, "constrained": ncon, "mismatches": mism[:3], "when_exit_sites": len(regs)},
-                 "exit hook registered iff the transition happened and the context has an entry", not mism and ncon >= 3, cfg)
-    if mism or ncon < 3:
+    # per feasible path: the hook is registered iff the transition happened on that path (the HalfOpen store was executed) and the
+    # context has an entry
+    stores = {st["bb"] for st in state_stores(f) if st["body"].path == b.path and st["value"] == "HalfOpen"}
+    rets = [p for p in paths if p["outcome"][0] == "return" and not any(l == ("const", False) for l in p["lits"])]
+    mism = []
+    ncon = 0
+    for p in rets:
+        hooks = sum(1 for x in p["blocks"] if x in regs)
+        transitioned = bool(stores & set(p["blocks"]))
+        ent = [l for l in p["lits"] if l[0] in ("disc", "disc_other") and l[1].startswith("entry")]
+        has_entry = any(l[0] == "disc" and l[2] == 1 for l in ent)
+        no_entry = any(l[0] == "disc" and l[2] == 0 for l in ent)
+        if transitioned and not (has_entry or no_entry):
+            continue
+        ncon += 1
+        want = 1 if (transitioned and has_entry) else 0
+        if hooks != want:
+            mism.append({"transition": transitioned, "entry": has_entry, "hooks": hooks})
+    n = len(rets)
+    ctx.instance("C03.rollback/registers", b.path, {"return_paths": n, "constrained": ncon, "mismatches": mism[:3], "when_exit_sites": len(regs)},
+                 "exit hook registered iff the transition happened and the context has an entry", not mism and ncon >= 3 and bool(stores), cfg)
+    if mism or ncon < 3 or not stores:
         ctx.violation("C03.rollback", "C03.rollback|registers", "the probe's rollback hook is not registered exactly when the breaker half-opens for an entry: %s" % (mism[:1] or "registration not found"), b.loc(), config=cfg)
     hooks = [c for c in f.closures_of(b) if any(s["body"].path == c.path for s in state_stores(f))]
     if not ctx.floor("C03.rollback", "exit hook closure storing the state", len(hooks), 1):
